@@ -129,6 +129,7 @@ func cmdCheck(args []string) int {
 	verif := fs.String("verif", "/verif", "verif root")
 	verbose := fs.Bool("v", false, "verbose")
 	only := fs.String("only", "", "restrict to functions whose key contains this string (debugging; evidence not written)")
+	noev := fs.Bool("noevidence", false, "do not rewrite the evidence file (used when checking a scratch copy)")
 	fs.Parse(args)
 	if *prop == "" {
 		fmt.Fprintln(os.Stderr, "govc check: -prop required")
@@ -170,7 +171,7 @@ func cmdCheck(args []string) int {
 			total.trusted[k] = true
 		}
 	}
-	return report(total, pc, cfg, *verif, seed, *only != "")
+	return report(total, pc, cfg, *verif, seed, *only != "" || *noev)
 }
 
 func runProperty(p *Prog, pc *PropConfig, cfg RunConfig, tags string, only string) *checkResult {
@@ -258,7 +259,7 @@ func (fv *FuncVC) addProbes() {
 		}
 	}
 	o := &Obligation{Name: fv.Name + "#probe(exit-reachable)", Kind: "probe", Props: []string{fv.activeProp}, Where: fv.P.relPos(fv.Fn.Pos()),
-		NAssert: len(fv.asserts), Reach: smtOr(exits...), Goal: "false", Func: fv.Name, Probe: true,
+		NAssert: len(fv.asserts), Reach: smtOr(exits...), Goal: "false", Func: fv.Name, Probe: true, Block: -1,
 		Src: "vacuity probe: preconditions, invariants and assumed callee contracts are jointly satisfiable and some exit is reachable"}
 	fv.obls = append(fv.obls, o)
 }
@@ -444,7 +445,8 @@ func cmdDump(args []string) int {
 		for _, o := range fv.obls {
 			fmt.Printf("  %s  [%s] %s\n", o.Name, strings.Join(o.Props, ","), o.Where)
 			if *obl != "" && strings.Contains(o.Name, *obl) {
-				fmt.Println(fv.buildQuery(o))
+				os.WriteFile("/tmp/govc_query.smt2", []byte(fv.buildQuery(o)), 0o644)
+				fmt.Println("    query written to /tmp/govc_query.smt2")
 			}
 		}
 		for _, w := range fv.warnings {
